@@ -2,6 +2,7 @@ package main
 
 import (
 	"fmt"
+	"go/token"
 	"go/types"
 	"sort"
 	"strings"
@@ -67,8 +68,7 @@ func (c *Ctx) idSpec() *Spec {
 
 func checkC16(c *Ctx) {
 	p := c.P
-	p.inline = true // trivial local helpers (one return) are transparent to the provenance descriptors
-	defer func() { p.inline = false }()
+
 	c.Clause("feature disabled ⇒ the function returns before touching any header")
 	c.Clause("enabled ⇒ the response header is set exactly once, under the configured name, before the chain runs")
 	c.Clause("generated path: request and response receive the same generated value; supplied path: the request is untouched and the response value is TrimSpace of the supplied one")
@@ -297,9 +297,7 @@ func (c *Ctx) idHeadersSurvive() {
 // non-error path (shared by C16 and C01).
 func (c *Ctx) outermostMiddleware() {
 	p := c.P
-	saved := p.inline
-	p.inline = false
-	defer func() { p.inline = saved }()
+
 	bh := p.Fn("cmd/helios", "", "buildHandler")
 	construct := "cmd/helios.buildHandler"
 	if bh == nil {
@@ -358,8 +356,11 @@ func checkC17(c *Ctx) {
 			}
 			return ""
 		},
-		Cond:   p.condMentions("builtins", "PluginsConfig", "param:base"),
-		Expand: func(*ssa.Function, ssa.CallInstruction) bool { return false },
+		Cond: p.condMentions("builtins", "PluginsConfig", "param:base"),
+		Expand: func(callee *ssa.Function, site ssa.CallInstruction) bool {
+			pk := fnPkg(callee)
+			return pk != nil && strings.HasSuffix(pk.Pkg.Path(), "/internal/plugins") && callee.Parent() == nil && callee.Name() != "BuildChain"
+		},
 	}
 	c.traceRule("chain-fails-closed", "plugins.BuildChain", bc, sp,
 		"unknown name / factory error ⇒ (nil, non-nil error); a handler is only returned with a nil error",
@@ -515,51 +516,137 @@ func (c *Ctx) chainOrder(bc *ssa.Function) {
 			bad = append(bad, "the accumulated handler is not {base, mw(previous)}")
 		}
 	}
-	// the middleware comes from the factory of chain[i]; i runs len-1 … 0
+	// the middleware comes from the registered factory of chain[E], built from that element's own
+	// configuration — directly, or through a helper that is handed the element
+	const want = "call:dyn[glob:plugins.builtins[fld:config.PluginConfig.Name]#0](fld:config.PluginConfig.Name,fld:config.PluginConfig.Config)#0"
 	mwDesc := p.Desc(apply.Call.Value, nil)
-	if mwDesc != "call:dyn[glob:plugins.builtins[fld:config.PluginConfig.Name]#0](fld:config.PluginConfig.Name,fld:config.PluginConfig.Config)#0" {
-		bad = append(bad, "the middleware applied for an element is not exactly the registered factory of that element's name called with that element's own configuration (every listed entry must be built and validated from its own payload): "+mwDesc)
-	}
-	var idx *ssa.Phi
-	instrsOf(bc, func(in ssa.Instruction) {
-		if ia, ok := in.(*ssa.IndexAddr); ok && strings.Contains(p.Desc(ia.X, nil), "PluginsConfig.Chain") {
-			if ph, ok := ia.Index.(*ssa.Phi); ok {
-				idx = ph
+	mwOK := mwDesc == want
+	if !mwOK {
+		if ex, ok := stripConv(apply.Call.Value).(*ssa.Extract); ok && ex.Index == 0 {
+			if call, ok := ex.Tuple.(*ssa.Call); ok {
+				if h := StaticFn(call); h != nil && p.IsHelios(h) && h.Blocks != nil {
+					elemArg := false
+					for _, a := range call.Call.Args {
+						if strings.HasPrefix(p.Desc(a, nil), "fld:config.PluginsConfig.Chain[]") {
+							elemArg = true
+						}
+					}
+					okRet, nRet := true, 0
+					instrsOf(h, func(in ssa.Instruction) {
+						if r, ok := in.(*ssa.Return); ok && len(r.Results) == 2 && isConstNil(r.Results[1]) {
+							nRet++
+							if p.Desc(r.Results[0], nil) != want {
+								okRet = false
+							}
+						}
+					})
+					mwOK = elemArg && okRet && nRet > 0
+				}
 			}
 		}
+	}
+	if !mwOK {
+		bad = append(bad, "the middleware applied for an element is not exactly the registered factory of that element's name called with that element's own configuration (every listed entry must be built and validated from its own payload): "+mwDesc)
+	}
+	// iteration order: the element index runs from len(chain)-1 down to 0
+	var idxExpr ssa.Value
+	instrsOf(bc, func(in ssa.Instruction) {
+		if ia, ok := in.(*ssa.IndexAddr); ok && strings.Contains(p.Desc(ia.X, nil), "PluginsConfig.Chain") {
+			idxExpr = ia.Index
+		}
 	})
-	if idx == nil {
-		bad = append(bad, "chain elements are not indexed by a loop counter")
-	} else {
+	const lenM1 = "(len(fld:config.PluginsConfig.Chain) - k:1)"
+	orderOK, why := false, "chain elements are not indexed by a loop counter"
+	isCounter := func(v ssa.Value, start int64, step string) (*ssa.Phi, bool) {
+		// v is phi or phi±1 of a counter starting at `start` and moving by one per iteration
+		var ph *ssa.Phi
+		switch x := v.(type) {
+		case *ssa.Phi:
+			ph = x
+		case *ssa.BinOp:
+			if q, ok := x.X.(*ssa.Phi); ok {
+				ph = q
+			}
+		}
+		if ph == nil {
+			return nil, false
+		}
 		startOK, stepOK := false, false
-		for _, e := range idx.Edges {
-			d := p.Desc(e, nil)
-			if d == "(len(fld:config.PluginsConfig.Chain) - k:1)" {
+		for _, e := range ph.Edges {
+			if k, ok := constInt(e); ok && k == start {
 				startOK = true
 			}
-			if b, ok := e.(*ssa.BinOp); ok && b.X == ssa.Value(idx) {
-				if k, ok := constInt(b.Y); ok && k == 1 && b.Op.String() == "-" {
+			if d := p.Desc(e, nil); start == -2 && d == lenM1 {
+				startOK = true
+			}
+			if b, ok := e.(*ssa.BinOp); ok && b.Op.String() == step {
+				if k, ok := constInt(b.Y); ok && k == 1 {
 					stepOK = true
 				}
 			}
 		}
-		if !startOK || !stepOK {
-			bad = append(bad, "the loop does not run from len(chain)-1 down in steps of 1 (the first listed plugin would not be outermost)")
-		}
-		condOK := false
+		return ph, startOK && stepOK
+	}
+	hasCond := func(pred func(r Rel) bool) bool {
+		found := false
 		instrsOf(bc, func(in ssa.Instruction) {
 			if ifi, ok := in.(*ssa.If); ok {
-				if b, ok := ifi.Cond.(*ssa.BinOp); ok && b.X == ssa.Value(idx) {
-					r := p.RelOf(ifi.Cond, true, nil)
-					if r.Y == "" && r.Lo == 0 && r.Hi == posInf {
-						condOK = true
-					}
+				if pred(p.RelOf(ifi.Cond, true, nil)) {
+					found = true
 				}
 			}
 		})
-		if !condOK {
-			bad = append(bad, "loop condition is not i ≥ 0 (an element would be skipped)")
+		return found
+	}
+	if idxExpr != nil {
+		if ph, ok := isCounter(idxExpr, -2, "-"); ok && idxExpr == ssa.Value(ph) {
+			// i := len-1; i >= 0; i--
+			if hasCond(func(r Rel) bool { return strings.HasPrefix(r.X, "phi(") && r.Y == "" && r.Lo == 0 && r.Hi == posInf }) {
+				orderOK = true
+			} else {
+				why = "loop condition is not i ≥ 0 (an element would be skipped)"
+			}
+		} else if sub, ok := idxExpr.(*ssa.BinOp); ok && sub.Op.String() == "-" && p.Desc(sub.X, nil) == lenM1 {
+			// index = (len-1) - U with U = φ+a counting 0,1,2,… while U < len
+			ub, uo := p.linear(sub.Y, nil)
+			var ph *ssa.Phi
+			switch y := sub.Y.(type) {
+			case *ssa.Phi:
+				ph = y
+			case *ssa.BinOp:
+				ph, _ = y.X.(*ssa.Phi)
+			}
+			counts := false
+			if ph != nil {
+				startOK, stepOK := false, false
+				for _, e := range ph.Edges {
+					if k, ok := constInt(e); ok && k+uo == 0 {
+						startOK = true
+					} else if bo, ok := e.(*ssa.BinOp); ok && bo.Op == token.ADD && bo.X == ssa.Value(ph) {
+						if k, ok := constInt(bo.Y); ok && k == 1 {
+							stepOK = true
+						}
+					}
+				}
+				counts = startOK && stepOK && len(ph.Edges) == 2
+			}
+			if counts {
+				if hasCond(func(r Rel) bool {
+					return r.X == ub && strings.Contains(r.Y, "len(fld:config.PluginsConfig.Chain)") && r.Hi == -1-uo && r.Lo == negInf
+				}) {
+					orderOK = true
+				} else {
+					why = "the ascending counter is not bounded by len(chain)"
+				}
+			} else {
+				why = "the offset subtracted from len(chain)-1 is not a counter 0,1,2,…"
+			}
+		} else {
+			why = "the loop does not run from len(chain)-1 down in steps of 1 (the first listed plugin would not be outermost)"
 		}
+	}
+	if !orderOK {
+		bad = append(bad, why)
 	}
 	// the success return yields the accumulated handler
 	retOK := false
